@@ -331,6 +331,16 @@ def run(chk):
             continue
         chk.count(('decoded', name, text))
         got = m.errors(g)
+        # every way of decoding the text with this model must lead to the same report
+        for how, f in (('decode', lambda: penman.decode(text, model=m)), ('loads', lambda: penman.loads(text, model=m)[0]),
+                       ('iterdecode', lambda: next(iter(penman.iterdecode(text, model=m))))):
+            try:
+                got2 = m.errors(common.timed(f, seconds=5))
+            except Exception as e:       # noqa
+                got2 = type(e).__name__
+            if got2 != got:
+                chk.fail('decoded', f'errors(penman.{how}(text, model={name})) = {got2!r} differs from errors(interpret(parse(text), model)) = {got!r}',
+                         dict(case, entry=how))
         if not g.top:
             chk.stat('decoded-empty-top (outside clause)')
         elif instance_node_branch(tbl, tree.node):
